@@ -141,6 +141,13 @@ def make_source(kind: str, data: bytes, schedule, default, tmpdir: str | None = 
     if kind == "tiny-buffer":
         return io.BufferedReader(faultio.ScheduleRaw(data, (), None, seekable=True),
                                  buffer_size=2)
+    if kind.startswith("gzip-pipe"):
+        # gzip.open(response): a GzipFile (which says it is seekable) over a transport that is
+        # not; the first gzip member holds k bytes
+        k = int(kind.rsplit("-", 1)[1])
+        blob = gzip.compress(data[:k]) + gzip.compress(data[k:]) if k else gzip.compress(data)
+        raw = faultio.ScheduleRaw(blob, (), None)
+        return gzip.GzipFile(fileobj=raw if "raw" in kind else io.BufferedReader(raw), mode="rb")
     if kind.startswith("gzip-members"):
         k = int(kind.rsplit("-", 1)[1])  # first gzip member holds k bytes
         blob = gzip.compress(data[:k]) + gzip.compress(data[k:])
@@ -271,14 +278,23 @@ def shard(job) -> dict:
                            "socket-buffered", "gzip", "gzip-members-1", "gzip-members-2",
                            "gzip-members-3", "gzip-members-7", "tiny-buffer", "preamble-1",
                            "preamble-13", "preamble-14", "preamble-15", "preamble-16",
-                           "preamble-17", "preamble-31"):
+                           "preamble-17", "preamble-31", "gzip-pipe-0", "gzip-pipe-1",
+                           "gzip-pipe-2", "gzip-pipe-3", "gzip-pipe-4", "gzip-pipe-7",
+                           "gzip-pipe-raw-1", "gzip-pipe-raw-2", "gzip-pipe-raw-3"):
                 case = {"corpus": size, "stream": name, "api": api, "mode": mode,
                         "source": source}
                 acc.evals += 1
                 r = run_case(case)
                 if r:
-                    acc.violation({"source": source, "api": api, "mode": mode},
-                                  f"{name} ({api} {mode}): {r}", case)
+                    sig = {"source": source, "api": api, "mode": mode}
+                    if source.startswith("gzip-pipe"):
+                        # (the failing outcome is part of the signature: a known finding names
+                        # one outcome for one first-member length, nothing else)
+                        sig = {"source": "gzip-pipe", "api": api, "mode": mode,
+                               "first_member_bytes": int(source.rsplit("-", 1)[1]),
+                               "outcome": "UnsupportedOperation" if "then UnsupportedOperation"
+                               in r and "gives 0 items" in r else "other"}
+                    acc.violation(sig, f"{name} ({api} {mode}): {r}", case)
             if entry.get("file_only"):
                 for source in ("raw", "response", "buffered", "short-buffered"):
                     for default in (None, 65536, 8191, 1000):
